@@ -459,6 +459,12 @@ func ruleInvokeSites(c *chk.Ctx, d *dispatchModel) {
 			}
 			return false
 		})
+		if !guarded && task != nil {
+			// or the task was picked on an earlier branch and put aside in a variable (the last
+			// runnable one, run after the loop): every value that variable is given — other than
+			// nil — is assigned on an err == nil edge
+			guarded = assignedUnderErrNil(c, task)
+		}
 		c.Check(guarded, "PAIR.invoke", f, "only runnable tasks", s.Pos(), "invocation is reached only on the err == nil edge of the same task",
 			"a task that already failed validation (err != nil) can reach the handler invocation")
 		// the site's anchors in the dispatch closure: the instructions of the closure through
@@ -497,14 +503,26 @@ func ruleInvokeSites(c *chk.Ctx, d *dispatchModel) {
 			// an anchor on a path that leaves the loop (break) has no header of its own but must
 			// still be inside the loop's dominance region
 			if h := loopHeaderOf(a); (h != nil && h != hdr) || (h == nil && hdr != nil && !hdr.Dominates(a)) {
-				excl = false
-			}
-			for j, b := range siteBlocks {
-				if i != j && (a == b || reachesWithout(a, b, hdr)) {
+				// (two consecutive loops that share one index variable — the second goes on where
+				// the first stopped — visit every task at most once between them)
+				if !(h != nil && hdr != nil && (continuesIndex(hdr, h) || continuesIndex(h, hdr))) {
 					excl = false
 				}
 			}
-			if hdr != nil && reachesWithout(a, a, hdr) {
+			ha := loopHeaderOf(a)
+			if ha == nil {
+				ha = hdr
+			}
+			for j, b := range siteBlocks {
+				hb := loopHeaderOf(b)
+				if hb == nil {
+					hb = hdr
+				}
+				if i != j && (a == b || reachesAvoiding(a, b, ha, hb)) {
+					excl = false
+				}
+			}
+			if ha != nil && reachesWithout(a, a, ha) {
 				excl = false
 			}
 		}
@@ -2676,6 +2694,163 @@ func isNotesCount(c *chk.Ctx, d *dispatchModel, v ssa.Value) bool {
 		if call, isCall := b.(*ssa.Call); isCall && call.Call.StaticCallee() == d.numToDo {
 			if st, isSt := call.Type().Underlying().(*types.Struct); isSt && st.NumFields() == 2 && st.Field(1) == fv {
 				return true
+			}
+		}
+	}
+	return false
+}
+
+// assignedUnderErrNil: v is a variable holding a task (a phi, or a local with
+// several assignments) and every non-nil value it is given is assigned where
+// the err == nil test of a task has succeeded.
+func assignedUnderErrNil(c *chk.Ctx, v ssa.Value) bool {
+	okConds := func(cs []ir.Cond) bool {
+		for _, cd := range cs {
+			if known, isNil := isErrNilOfTask(c, cd, nil); known && isNil {
+				return true
+			}
+		}
+		return false
+	}
+	seen := map[ssa.Value]bool{}
+	n := 0
+	var walk func(x ssa.Value, depth int) bool
+	walk = func(x ssa.Value, depth int) bool {
+		if depth > 6 {
+			return false
+		}
+		if seen[x] {
+			return true
+		}
+		seen[x] = true
+		switch y := x.(type) {
+		case *ssa.Phi:
+			for i, e := range y.Edges {
+				if ir.IsNilConst(e) || seen[e] {
+					continue
+				}
+				if _, isPhi := e.(*ssa.Phi); isPhi {
+					if !walk(e, depth+1) {
+						return false
+					}
+					continue
+				}
+				n++
+				if !okConds(ir.EdgeConds(y.Block().Preds[i], y.Block())) {
+					return false
+				}
+			}
+			return true
+		case *ssa.Alloc:
+			for _, st := range ir.CellStores(y) {
+				if ir.IsNilConst(st.Val) {
+					continue
+				}
+				n++
+				if !okConds(ir.CondsAt(st.Block())) {
+					return false
+				}
+			}
+			return true
+		case *ssa.UnOp:
+			if al, ok := y.X.(*ssa.Alloc); ok {
+				return walk(al, depth+1)
+			}
+			// an element of a list prepared beforehand (`ready = append(ready, t)` on the
+			// err == nil edge, then a loop over ready): every element put into the list
+			if ia, ok := y.X.(*ssa.IndexAddr); ok && y.Op == token.MUL {
+				elems, known := c.P.ElementValues(ia.X)
+				if !known || len(elems) == 0 {
+					return false
+				}
+				for _, e := range elems {
+					put := false
+					if refs := e.Referrers(); refs != nil {
+						for _, r := range *refs {
+							st, isSt := r.(*ssa.Store)
+							if !isSt || st.Val != e {
+								continue
+							}
+							if _, intoElem := st.Addr.(*ssa.IndexAddr); !intoElem {
+								continue
+							}
+							put = true
+							n++
+							if !okConds(ir.CondsAt(st.Block())) {
+								return false
+							}
+						}
+					}
+					if !put {
+						return false
+					}
+				}
+				return true
+			}
+		}
+		return false
+	}
+	return walk(ir.NormCell(v), 0) && n > 0
+}
+
+// continuesIndex: the loop headed by second goes on with the index variable of
+// the loop headed by first: an index phi of second takes, on its entry edge,
+// the index phi of first, and first is not reachable again from second.
+func continuesIndex(first, second *ssa.BasicBlock) bool {
+	if first == second || reachesWithout(second, first, nil) {
+		return false
+	}
+	indexPhis := func(h *ssa.BasicBlock) map[*ssa.Phi]bool {
+		out := map[*ssa.Phi]bool{}
+		for _, ins := range h.Instrs {
+			phi, ok := ins.(*ssa.Phi)
+			if !ok {
+				break
+			}
+			if refs := phi.Referrers(); refs != nil {
+				for _, r := range *refs {
+					if ia, isIA := r.(*ssa.IndexAddr); isIA && ia.Index == ssa.Value(phi) {
+						out[phi] = true
+					}
+				}
+			}
+		}
+		return out
+	}
+	a, b := indexPhis(first), indexPhis(second)
+	for pb := range b {
+		for _, e := range pb.Edges {
+			if pa, ok := e.(*ssa.Phi); ok && a[pa] {
+				return true
+			}
+		}
+	}
+	return false
+}
+
+// reachesAvoiding: can from reach to (forward) without entering any of avoid?
+func reachesAvoiding(from, to *ssa.BasicBlock, avoid ...*ssa.BasicBlock) bool {
+	skip := map[*ssa.BasicBlock]bool{}
+	for _, a := range avoid {
+		if a != nil {
+			skip[a] = true
+		}
+	}
+	seen := map[*ssa.BasicBlock]bool{}
+	stack := []*ssa.BasicBlock{from}
+	for len(stack) > 0 {
+		b := stack[len(stack)-1]
+		stack = stack[:len(stack)-1]
+		if seen[b] {
+			continue
+		}
+		seen[b] = true
+		for _, s := range b.Succs {
+			if s == to {
+				return true
+			}
+			if !skip[s] {
+				stack = append(stack, s)
 			}
 		}
 	}
